@@ -263,7 +263,10 @@ def scsv_tabulation(ctx, report, c, p, q, RULE='C05.R3'):
                 return 'E0'
             return NotImplemented
         hook = class_call_hook(c, extra, model)
-        Evaluator({'parsable': b'x', 'cls': None}, hook, hook.name_hook_for(c.module, names)).function(p.node)
+        class Cls(Native):
+            # the class object of the hello: class level tables are read through the class chain
+            _repo_class = c
+        Evaluator({'parsable': b'x', 'cls': Cls()}, hook, hook.name_hook_for(c.module, names)).function(p.node)
         return box.get('obj')
     log = []
 
@@ -373,7 +376,7 @@ def scsv_tabulation(ctx, report, c, p, q, RULE='C05.R3'):
     except (Unsupported, Raised) as e:
         report.sample({'rule': RULE, 'tabulation': 'not applicable (%s): the fold is read off the loop instead' % str(e)[:80]})
         return False
-    report.sample({'rule': RULE, 'tabulated': '85 suite sequences through _parse, 16 objects through compose'})
+    report.sample({'rule': RULE, 'tabulated': '85 suite sequences through _parse, 24 objects through compose (with and without a renegotiation_info extension)'})
     return True
 
 
